@@ -32,6 +32,9 @@ static PROBE_LEN: AtomicUsize = AtomicUsize::new(0);
 
 thread_local! {
     static TID: Cell<usize> = const { Cell::new(usize::MAX) };
+    /// step numbers of the first / last scheduled step of the running operation
+    static OPF: Cell<usize> = const { Cell::new(usize::MAX) };
+    static OPL: Cell<usize> = const { Cell::new(0) };
 }
 
 /// Blocks until the schedule says it is this thread's turn; returns the global step number.
@@ -57,6 +60,12 @@ fn gate(what: &str) -> usize {
             s.step_no += 1;
             s.log.push(format!("{n}:t{me}:{what}"));
             CV.notify_all();
+            OPF.with(|c| {
+                if c.get() == usize::MAX {
+                    c.set(n)
+                }
+            });
+            OPL.with(|c| c.set(n));
             return n;
         }
         g = CV.wait(g).unwrap();
@@ -140,7 +149,7 @@ fn main() {
                     TID.with(|c| c.set(t));
                     let mut out = vec![];
                     for op in ops {
-                        let first = SCHED.lock().unwrap().as_ref().unwrap().step_no;
+                        OPF.with(|c| c.set(usize::MAX));
                         let r = if op == "next" {
                             match it.next() {
                                 None => "none".to_string(),
@@ -176,7 +185,7 @@ fn main() {
                         } else {
                             format!("len:{:?}:{:?}", it.try_get_len(), it.has_more())
                         };
-                        let last = SCHED.lock().unwrap().as_ref().unwrap().step_no;
+                        let (first, last) = (OPF.with(|c| c.get()), OPL.with(|c| c.get()));
                         out.push(format!("{op}={r}@{first}-{last}"));
                     }
                     let mut g = SCHED.lock().unwrap();
